@@ -35,6 +35,8 @@ def _events(st, tier):
     if st.cfg.get("soak"):
         return ["freeze", "soak", "deepcopy", "fwd_a"]
     ev = ["fwd_a", "freeze", "to_cpu", "deepcopy", "sd", "no_grad_params"]
+    if "conv" in st.cfg["model"] and not st.cfg.get("long"):
+        ev.append("chlast")  # the model is switched to channels_last (not value-preserving bit for bit: another kernel may run)
     if st.cfg["a"]:
         ev.append("calib_a")
         ev.append("calib_s")  # default Calibration(): streamlining may switch some activation qtypes to None
@@ -64,6 +66,8 @@ def _apply(st, ev):
         freeze(m)
     elif ev == "no_grad_params":
         m.requires_grad_(False)  # e.g. a backbone frozen for transfer learning
+    elif ev == "chlast":
+        st.model = m.to(memory_format=torch.channels_last)
     elif ev == "to_cpu":
         st.model = m.to("cpu")
     elif ev == "deepcopy":
